@@ -40,18 +40,20 @@ type propCfg struct {
 	rule        string
 	level       string
 	stubs       []string
+	auto        bool // the check also runs the auto-yield worker (instrumented copy of the library)
+	autoBin     bool // this invocation uses the auto-yield worker
 }
 
 var cfgs = map[string]propCfg{
 	"C05": {engine: "A", race: false, quickRuns: 6000, batch: 200, thoroughSec: 600,
 		rule: "one run = one seeded history of 2..12 public-API operations (Eval/EvalBytes/String/Compile of other expressions, aborted and extension-faulted evaluations) on a pool of 2..6 shared Exprs; evaluations = operations executed; distinct_nontrivial = distinct (program text, document, bindings) triples that were evaluated at >= 2 different history positions (only those can expose history dependence)"},
-	"C06": {engine: "A", race: true, quickRuns: 4000, batch: 100, thoroughSec: 900,
+	"C06": {engine: "A", race: true, auto: true, quickRuns: 4000, batch: 100, thoroughSec: 900,
 		rule: "one run = one seeded schedule of 2..8 (thorough: 2..32) tasks over shared-Expr / per-task-Expr / register||compile workloads under the race detector; evaluations = simulated runs; distinct_nontrivial = distinct schedule signatures (hash of the (task, site, next-task) sequence at switches) among runs with >= 1 preemption inside another task's call window (a hook site other than node entry / operation end)"},
-	"C07": {engine: "A", race: true, quickRuns: 3000, batch: 100, thoroughSec: 600,
+	"C07": {engine: "A", race: true, auto: true, quickRuns: 3000, batch: 100, thoroughSec: 600,
 		rule: "one run = seeded operations on documents and registered variables (sequential with aborts/extension faults between a transform's clone and its writes, or 2..6 tasks sharing ONE document object); evaluations = operations executed; distinct_nontrivial = distinct (program text, document) pairs in which the program belongs to a copying/transform family (transform, outside, arrn, arrs, obj)"},
-	"C19": {engine: "B", race: true, quickRuns: 1500, batch: 100, thoroughSec: 600,
+	"C19": {engine: "B", race: true, auto: true, quickRuns: 1500, batch: 100, thoroughSec: 600,
 		rule: "one run = 1..6 tasks evaluating clock programs ($millis/$now in several pictures, inside lambdas, partials, chains) separated by $tick(d) stalls and clock jumps of 1 ms..10 years under a simulated clock (testing/synctest); evaluations = simulated runs; distinct_nontrivial = distinct schedule signatures among runs in which >= 2 evaluations overlapped in simulated time or the clock advanced inside an evaluation"},
-	"C20": {engine: "A", race: true, quickRuns: 3000, batch: 100, thoroughSec: 600,
+	"C20": {engine: "A", race: true, auto: true, quickRuns: 3000, batch: 100, thoroughSec: 600,
 		rule: "one run = a registry history (package-level RegisterVars/RegisterExts || Compile, Expr-level overlays, rejected registrations, probes) checked for linearizability against a sequential model, or extension calls under injected error/undefined/panic/stall faults with window preemption; evaluations = simulated runs; distinct_nontrivial = distinct event-log hashes among runs that had a registration concurrent with a compile/probe, or in which an extension fault fired"},
 }
 
@@ -106,11 +108,15 @@ func main() {
 
 func workerCmd(cfg propCfg, args ...string) *exec.Cmd {
 	var cmd *exec.Cmd
+	suffix := ""
+	if cfg.autoBin {
+		suffix = "-auto"
+	}
 	if cfg.engine == "B" {
 		a := append([]string{"-test.run", "^TestWorker$", "-test.timeout", "0"}, args...)
-		cmd = exec.Command(filepath.Join(*binDir, "workerb.test"), a...)
+		cmd = exec.Command(filepath.Join(*binDir, "workerb"+suffix+".test"), a...)
 	} else if cfg.race {
-		cmd = exec.Command(filepath.Join(*binDir, "worker-race"), args...)
+		cmd = exec.Command(filepath.Join(*binDir, "worker-race"+suffix), args...)
 	} else {
 		cmd = exec.Command(filepath.Join(*binDir, "worker"), args...)
 	}
@@ -137,6 +143,11 @@ func runWorkerWith(cfg propCfg, extraEnv []string, args ...string) (results []*r
 	cmd.Env = append(os.Environ(),
 		"GORACE=halt_on_error=0 exitcode=0 atexit_sleep_ms=0 log_path="+racePrefix,
 		"VERIF_RACELOG="+racePrefix)
+	if os.Getenv("GOMAXPROCS") == "" {
+		// the simulation runs one task at a time; more Ps only add spinning
+		// threads that fight the other worker processes for the cores
+		cmd.Env = append(cmd.Env, "GOMAXPROCS=2")
+	}
 	cmd.Env = append(cmd.Env, extraEnv...)
 	var stderr bytes.Buffer
 	cmd.Stderr = &stderr
@@ -193,6 +204,7 @@ func runWorkerWith(cfg propCfg, extraEnv []string, args ...string) (results []*r
 
 type agg struct {
 	runs, ops, events   int
+	autoRuns            int
 	switches, windowSw  int
 	faults, probes      map[string]int
 	foreign             map[string]int
@@ -221,6 +233,7 @@ type hit struct {
 	res       *run.Result
 	v         run.Violation
 	batchFrom uint64 // first seed of the worker process that executed the run
+	auto      bool   // executed by the auto-yield worker
 }
 
 func newAgg() *agg {
@@ -229,8 +242,11 @@ func newAgg() *agg {
 		nontrivial: map[string]bool{}, hashes: map[string]bool{}, nodeTypes: map[string]int{}, funcs: map[string]int{}}
 }
 
-func (a *agg) add(p string, r *run.Result, batchFrom uint64, spec func() *run.Spec) {
+func (a *agg) add(p string, r *run.Result, batchFrom uint64, auto bool, spec func() *run.Spec) {
 	a.runs++
+	if auto {
+		a.autoRuns++
+	}
 	a.ops += r.Ops
 	a.events += r.Events
 	a.switches += r.SwitchCount
@@ -297,7 +313,7 @@ func (a *agg) add(p string, r *run.Result, batchFrom uint64, spec func() *run.Sp
 		a.tainted = append(a.tainted, fmt.Sprintf("seed %d: %s", r.Seed, r.Note))
 	}
 	for _, v := range r.Violations {
-		a.violations = append(a.violations, &hit{res: r, v: v, batchFrom: batchFrom})
+		a.violations = append(a.violations, &hit{res: r, v: v, batchFrom: batchFrom, auto: auto})
 	}
 	if p == "C05" {
 		a.cross.add(r, batchFrom)
@@ -427,18 +443,30 @@ func doCheck(cfg propCfg) int {
 				if !ok {
 					return
 				}
+				// thorough: every fourth batch goes to the auto-yield worker
+				// (statement-granular preemption, ~20x the events per run);
+				// quick: the first quarter of every eighth batch
+				auto := cfg.auto && ((from-first)/uint64(cfg.batch))%4 == 3
+				if *tier != "thorough" {
+					auto = cfg.auto && ((from-first)/uint64(cfg.batch))%8 == 7
+					if auto && n > cfg.batch/4 {
+						n = cfg.batch / 4
+					}
+				}
 				// a tainted run ends its process; continue after it
 				for n > 0 {
 					args := []string{"-prop", *prop, "-tier", *tier, "-from", strconv.FormatUint(from, 10), "-count", strconv.Itoa(n)}
 					if os.Getenv("VERIF_SELFCHECK") != "" {
 						args = append(args, "-selfcheck")
 					}
-					results, inf, exit := runWorker(cfg, args...)
+					wcfg := cfg
+					wcfg.autoBin = auto
+					results, inf, exit := runWorker(wcfg, args...)
 					mu.Lock()
 					infra = append(infra, inf...)
 					for _, r := range results {
 						r := r
-						a.add(*prop, r, from, func() *run.Spec { return run.Generate(*prop, r.Seed, *tier) })
+						a.add(*prop, r, from, auto, func() *run.Spec { return run.Generate(*prop, r.Seed, *tier) })
 					}
 					mu.Unlock()
 					doneHere := len(results)
@@ -487,7 +515,10 @@ func doCheck(cfg propCfg) int {
 			break
 		}
 		seen[k] = true
+		cfg := cfg
+		cfg.autoBin = h.auto
 		spec := run.Generate(*prop, h.res.Seed, *tier)
+		spec.Auto = h.auto
 		spec.Switches = h.res.Switches
 		if spec.Switches == nil {
 			spec.Switches = nonNilSwitches()
@@ -632,6 +663,7 @@ func doCheck(cfg propCfg) int {
 		"node_types_never":     missing(allNodeTypes, a.nodeTypes),
 		"builtins_never":       missing(allBuiltins, a.funcs),
 		"workers":              *workers,
+		"auto_yield_runs":      a.autoRuns,
 		"explore_wall_s":       exploreWall,
 		"real_components":      []string{"jsonata (Compile, Eval, EvalBytes, registries, evaluator, callables)", "jparse", "jlib", "jlib/jxpath", "jtypes", "Go runtime maps/reflect/encoding/json/regexp"},
 		"stubbed_components":   stubs(cfg),
@@ -744,6 +776,7 @@ func runSpec(cfg propCfg, spec *run.Spec) (*run.Result, []string) {
 	p := filepath.Join(scratch, fmt.Sprintf("spec%d.json", n))
 	os.WriteFile(p, run.MarshalSpec(spec), 0o644)
 	defer os.Remove(p)
+	cfg.autoBin = spec.Auto
 	results, infra, _ := runWorker(cfg, "-replay", p)
 	if len(results) == 0 {
 		return nil, infra
